@@ -1,0 +1,40 @@
+//go:build verif
+
+package hh
+
+import "time"
+
+// This file is compiled only with the "verif" build tag. It exposes thin
+// wrappers over the unexported hinted-handoff queue so that a simulator living
+// in another module can drive it. The wrappers contain no logic of their own.
+
+// VerifQueue wraps the unexported queue.
+type VerifQueue struct{ q *queue }
+
+// VerifNewQueue calls newQueue.
+func VerifNewQueue(dir string, maxSize int64, maxWrites int) (*VerifQueue, error) {
+	q, err := newQueue(dir, maxSize, maxWrites)
+	if err != nil {
+		return nil, err
+	}
+	return &VerifQueue{q: q}, nil
+}
+
+func (v *VerifQueue) Open() error                         { return v.q.Open() }
+func (v *VerifQueue) Close() error                        { return v.q.Close() }
+func (v *VerifQueue) Append(b []byte) error               { return v.q.Append(b) }
+func (v *VerifQueue) Current() ([]byte, error)            { return v.q.Current() }
+func (v *VerifQueue) Advance() error                      { return v.q.Advance() }
+func (v *VerifQueue) Truncate() error                     { return v.q.Truncate() }
+func (v *VerifQueue) Empty() bool                         { return v.q.Empty() }
+func (v *VerifQueue) SetMaxSegmentSize(size int64) error  { return v.q.SetMaxSegmentSize(size) }
+func (v *VerifQueue) PurgeOlderThan(when time.Time) error { return v.q.PurgeOlderThan(when) }
+func (v *VerifQueue) LimiterLen() int                     { return len(v.q.limiter) }
+func (v *VerifQueue) SegmentCount() int {
+	v.q.mu.RLock()
+	defer v.q.mu.RUnlock()
+	return len(v.q.segments)
+}
+
+// VerifMarshalWrite and VerifUnmarshalWrite expose the block codec.
+func VerifUnmarshalWrite(b []byte) (uint64, [][]byte, error) { return unmarshalWrite(b) }
